@@ -21,6 +21,7 @@ mod c07 {
     pub mod ast;
     pub mod generate;
     pub mod mutate;
+    pub mod infer;
 }
 
 use c07::ast::*;
@@ -1308,6 +1309,8 @@ fn worker(args: &[String]) {
             "rec" => rec_case(&rt, &mut drv, seed, i, &mut rep),
             "gen" => gen_case(&rt, &mut drv, seed, i, &mut rep),
             "decl" => decl_case(&rt, &mut drv, seed, i, &mut rep),
+            "infer" => c07::infer::infer_case(&rt, &mut drv, seed, i, &mut rep),
+            "infer-gen" => c07::infer::infer_case(&rt, &mut drv, seed, i + c07::infer::REPS.len() as u64, &mut rep),
             _ => {}
         }
     }
@@ -1439,10 +1442,13 @@ fn main() {
             let unifies = env_n("C07_UNIFY", pick(60_000, 120_000, 600_000));
             let lits = env_n("C07_LIT", pick(20_000, 40_000, 150_000));
             let recs = env_n("C07_REC", pick(20_000, 40_000, 150_000));
+            let infers = env_n("C07_INFER", pick(8_000, 30_000, 100_000));
             let jobs = env_n("C07_JOBS", 4);
             let mut rep = Report::default();
             run_phase("corpus", seed, corpus_files().len() as u64, 64, 1, &mut rep);
             rep.notes.push(format!("corpus: {} witnesses replayed first", corpus_files().len()));
+            // the inference model against the real checker: class representatives first
+            run_phase("infer", seed, c07::infer::REPS.len() as u64, 64, 1, &mut rep);
             run_phase("ops", seed, ops_total(), 700, jobs, &mut rep);
             run_phase("assign", seed, assign_targets().len() as u64, 64, 1, &mut rep);
             run_phase("match", seed, matches, 500, jobs, &mut rep);
@@ -1452,6 +1458,8 @@ fn main() {
             run_phase("gen", seed, recs, 1000, jobs, &mut rep);
             run_phase("decl", seed, recs, 1000, jobs, &mut rep);
             run_phase("prog", seed, progs, 250, jobs, &mut rep);
+            run_phase("infer-gen", seed, infers, 250, jobs, &mut rep);
+            rep.notes.push(format!("inference model vs type checker: {} class representatives, then {infers} generated programs with {} edits each", c07::infer::REPS.len(), 3));
             rep.notes.push(format!(
                 "phases: ops {} (whole table), match {matches}, unify {unifies}, literal variables {lits}, record literals {recs}, generic instantiation {recs}, declaration tables {recs}, programs {progs} (evaluations count judged mutants, not programs)",
                 ops_total()
@@ -1499,6 +1507,15 @@ fn main() {
 fn replay_one(input: &Value, rep: &mut Report) {
     let rt = Runtime::new();
     if let Some(src) = input["src"].as_str() {
+        if input["phase"].as_str() == Some("infer") {
+            // model of the inference pass against the type checker on the recorded script
+            let mut drv = Driver::spawn().expect("lean driver");
+            c07::infer::compare(&rt, &mut drv, "replay", src, input["sexp"].as_str().unwrap_or(""), input["id"].clone(), rep);
+            for m in &rep.model_mismatches {
+                println!("mismatch: {}", m["what"].as_str().unwrap_or(""));
+            }
+            return;
+        }
         if let Some(table) = input["table"].as_str() {
             // operator table entry: accepted although the documented rules forbid it?
             rep.evaluations += 1;
